@@ -131,7 +131,13 @@ inductive Ev
 /-- what a session is created with besides the negotiator: the domain of its own address and
 the STARTTLS feature value (its closure variable: `none` for `StartTLS(nil)`) -/
 structure Env where
+  /-- domainpart of the session's OWN (local) address: for an initiator the `origin` argument of
+  `NewSession` -/
   domain : Nat
+  /-- domainpart of the REMOTE address (the `location` argument of `NewSession`); it may differ
+  from `domain` (hosted domains, server-to-server).  No function of the model reads it: the
+  server name of the default TLS configuration depends on the local address only. -/
+  remote : Nat
   captured : Option Name
   deriving Repr
 
@@ -435,6 +441,7 @@ def capturedAfter (cfg : Cfg) (env : Env) (state0 : Mask) (i : Input) (fuel : Na
 structure SessionSpec where
   cfg : Cfg
   domain : Nat
+  remote : Nat
   state0 : Mask
   input : Input
   fuel : Nat
@@ -443,8 +450,8 @@ structure SessionSpec where
 def history : Option Name → List SessionSpec → List (List Ev × Outcome)
   | _, [] => []
   | cap, x :: rest =>
-    run x.cfg ⟨x.domain, cap⟩ x.state0 x.input x.fuel ::
-      history (capturedAfter x.cfg ⟨x.domain, cap⟩ x.state0 x.input x.fuel) rest
+    run x.cfg ⟨x.domain, x.remote, cap⟩ x.state0 x.input x.fuel ::
+      history (capturedAfter x.cfg ⟨x.domain, x.remote, cap⟩ x.state0 x.input x.fuel) rest
 
 /-! ### the server name offered by a reused feature value -/
 
@@ -455,12 +462,20 @@ inductive Kind | p | x | f | n
 
 /-- the server names seen in the ClientHellos of a list of sessions that share one feature
 value (`none`: the session sends no ClientHello) -/
-def sessions : Option Name → List (Nat × Kind) → List (Option Name)
+structure SniSess where
+  /-- own domain, remote domain, server-to-server?, how far the session gets -/
+  domain : Nat
+  remote : Nat
+  s2s : Bool
+  kind : Kind
+  deriving Repr
+
+def sessions : Option Name → List SniSess → List (Option Name)
   | _, [] => []
-  | cap, (d, k) :: rest =>
-    match k with
+  | cap, x :: rest =>
+    match x.kind with
     | .n => none :: sessions cap rest
-    | .f => none :: sessions (negotiateName cap d).1 rest
-    | _ => some (negotiateName cap d).2 :: sessions (negotiateName cap d).1 rest
+    | .f => none :: sessions (negotiateName cap x.domain).1 rest
+    | _ => some (negotiateName cap x.domain).2 :: sessions (negotiateName cap x.domain).1 rest
 
 end XmppModel.StartTLS
